@@ -3,6 +3,7 @@ package c09
 import (
 	"fmt"
 	"strings"
+	"time"
 
 	"github.com/google/pprof/verifh/drive"
 	"github.com/google/pprof/verifh/vk"
@@ -98,26 +99,55 @@ func webFamily(c *vk.Ctx, data []byte, idx *int64) {
 			w := witness{Family: "E", Request: target}
 			c.Eval()
 			c.Journal("web", w)
-			devnull(func() {
-				r := drive.Web(map[string][]byte{"p": data}, []string{"p"})
-				h := r.Handlers
-				for _, method := range []string{"GET", "POST"} {
-					code, _, pan := drive.Get(h, method, target)
-					if pan != nil {
-						c.Violationf("panic/web/"+strings.Trim(p, "/"), w, "%s %s: %v", method, target, pan)
-						return
+			hung := !within(60*time.Second, func() {
+				devnull(func() {
+					r := drive.Web(map[string][]byte{"p": data}, []string{"p"})
+					h := r.Handlers
+					for _, method := range []string{"GET", "POST"} {
+						code, _, pan := drive.Get(h, method, target)
+						if pan != nil {
+							c.Violationf("panic/web/"+strings.Trim(p, "/"), w, "%s %s: %v", method, target, pan)
+							return
+						}
+						if code == 0 {
+							c.Violationf("web/no-status", w, "%s %s", method, target)
+						}
 					}
-					if code == 0 {
-						c.Violationf("web/no-status", w, "%s %s", method, target)
+					// the session stays usable
+					code, body, pan := drive.Get(h, "GET", "/top")
+					if pan != nil || code != 200 || len(body) == 0 {
+						c.Violationf("web/session-unusable-afterwards", w, "GET /top after %s: code %d panic %v", target, code, pan)
 					}
-				}
-				// the session stays usable
-				code, body, pan := drive.Get(h, "GET", "/top")
-				if pan != nil || code != 200 || len(body) == 0 {
-					c.Violationf("web/session-unusable-afterwards", w, "GET /top after %s: code %d panic %v", target, code, pan)
-				}
+					// settings requests must still be served (a lock left behind would block them)
+					for _, t2 := range []string{"/saveconfig?config=verif-sentinel", "/deleteconfig?config=verif-sentinel"} {
+						if code, _, pan := drive.Get(h, "GET", t2); pan != nil || code != 200 {
+							c.Violationf("web/session-unusable-afterwards", w, "GET %s after %s: code %d panic %v", t2, target, code, pan)
+						}
+					}
+				})
 			})
+			if hung {
+				c.Violationf("hang/web", w, "the request (or the sentinel requests after it) did not return within 60 s")
+				return // process-global state is wedged; the remaining cases of this shard cannot be judged
+			}
 			c.Nontrivial("E|" + target)
 		}
+	}
+}
+
+// within runs f and reports whether it returned within d. A wall-clock bound is
+// used only to turn a hang (a request that never returns) into a report; the
+// operations bounded here take milliseconds.
+func within(d time.Duration, f func()) bool {
+	done := make(chan struct{})
+	go func() {
+		defer close(done)
+		f()
+	}()
+	select {
+	case <-done:
+		return true
+	case <-time.After(d):
+		return false
 	}
 }
